@@ -37,6 +37,34 @@ CLAIMED = {
         "design_ref": "DESIGN.md §5 C08, §3.4",
         "note": COMMON_NOTE + "Rust's binary_search_by_key is assumed correct on strictly ascending input (the model uses its specification, not the halving loop).",
     },
+    "C03": {
+        "category": "proof",
+        "technique": "Lean 4 invariant proof over all sequential reader/writer histories (release protocol + copy-on-write clients) + exact correspondence of the real in-memory free list with the model after every commit",
+        "text": "Proved for every history of protocol-abiding events, any number of readers opened/closed in any order (Jamm/Props/C03.lean): the accounting invariant holds in every reachable state; no committing writer writes a page of an open reader's snapshot; no such page is ever in the shared free set; a reader's snapshot is a value. Writers are abstract copy-on-write clients (free pages of the snapshot they started from, write only pages they allocated). Tie, checked after every commit: the writer's freed/allocated page sets are extracted from consecutive real files by the Lean decoder, the model applies its own release rule (pending older than the oldest registered reader), and the real in-memory free list read through the hook accessor must equal the model's exactly; allocated pages must have been free or fresh in the model; Sys.invB is evaluated on every real state; every open reader is re-dumped in full after every step and compared with the specification.",
+        "design_ref": "DESIGN.md §5 C03, §3.3, §3.8",
+        "note": COMMON_NOTE + "That the real commit is a copy-on-write client (frees only reachable pages, writes only allocated ones) is checked per commit on real files, not proved (Layer C). Files are pre-sized so no commit grows the file while a reader is open on the harness thread (documented self-deadlock).",
+    },
+    "C06": {
+        "category": "proof",
+        "technique": "Lean 4 theorems (every erroring specification call is a no-op; drop is a no-op) + obligations decided on tables regenerated from /repo/src (mutators guarded, API classified, only write_data/resize/init_file touch the file, shared free list assigned only at commit) + file-hash correspondence",
+        "text": "Proved (Jamm/Props/C06.lean): every specification operation that returns an error leaves the state unchanged; dropping a transaction leaves the world unchanged. Decided on every run over tables the translator regenerates from the source: every public Bucket/Tx method that can mutate starts with the read-only guard; every public method appears in the classification (a new method breaks the obligation until classified); the only functions that write/seek/extend/sync a file are write_data, resize, init_file; the shared free list is assigned only in write_data and at open; commit refuses a read-only transaction first. Tie: histories with large rolled-back transactions (incl. bucket deletes), every mutator through read-only handles, reopen; the real file is hashed before/after and must be byte-identical between commits; later commits are compared with the specification as if the abandoned work never existed.",
+        "design_ref": "DESIGN.md §5 C06",
+        "note": COMMON_NOTE + "Translator is pattern-based (brace matching + marker tables); in-memory caches that change on failed/read-only calls are unobservable and outside the statement.",
+    },
+    "C10": {
+        "category": "proof",
+        "technique": "Lean 4 theorems about the allocator (first-fit soundness/completeness, exact allocation/release, pigeonhole plateau bound, release-all without readers, invariant along all histories) + exact correspondence of the real in-memory free list on soak workloads",
+        "text": "Proved for all free sets / request sizes / histories (Jamm/Props/C10.lean): first fit returns a run of free pages and fails only when none exists; the file is extended only then, and only while numPages <= (k-1)(n+1)+n+2 with n the number of non-free pages (pigeonhole over maximal free runs), so file growth is bounded by live+pending data independently of the number of transactions; release moves exactly the pages freed by transactions older than the bound; with no reader open the next writer releases everything; pages an open reader needs are retained (C03). Tie: soak workloads (fixed/variable-size overwrite, delete, bucket delete, periodic reopen, a reader held for a stretch): after every commit the real free list (hook accessor) must equal the model's, the persisted list must be free ∪ pending, and the file's page mark is read from the real header by the Lean decoder.",
+        "design_ref": "DESIGN.md §5 C10, §3.3",
+        "note": COMMON_NOTE + "The bound is what first fit guarantees, not the tightest plateau. On reopen everything listed becomes free (checked).",
+    },
+    "C16": {
+        "category": "other",
+        "technique": "configuration-free Lean specification + Lean theorems on growth arithmetic and generated parameters + differential replay of the same histories under the configuration product",
+        "text": "The specification has no configuration parameter and the Layer Q/T theorems hold for arbitrary trees, so behaviour is a function of the history only; proved: regenerated tunables satisfy Params.Valid, the computed file extension always covers the required size in whole steps, growth precedes writes in the regenerated commit order. Decided by correspondence: the same histories are replayed under page sizes {1024,1032,2048,3000,4096,5000,16384,65536,1MiB} x page counts {4,32,1000} x strict x populate (quick: 14 combinations covering every value; thorough: full product) and compared with the single specification run; strict mode must never reject; growth runs cross several 8 MiB extension steps including a single commit that needs more than one step. Category other because config-independence of commit is not a theorem (Layer C).",
+        "design_ref": "DESIGN.md §5 C16",
+        "note": COMMON_NOTE + "Page sizes that are not a multiple of 8 are an open known finding (D14: misaligned reference, debug abort) and are probed separately; mmap_populate/direct_writes only change OS flags.",
+    },
 }
 
 REASON_PENDING = "check not built yet (build in progress, see DESIGN.md section 8)"
